@@ -22,10 +22,10 @@ PROPS = {
         "not_covered": ["memory safety of the linked list / allocator (C15)", "history-level statements are mechanised as Verus theorems over arbitrary histories of abstract steps (thm_fetch_order, thm_fetched_once, thm_cancelled_never_fetched, thm_fetched_was_added, thm_fetch_deterministic, thm_invariant); 'returned exactly once' is proved as 'at most once, and pending until returned or cancelled' (that a drain returns everything is Runtime::finish's contract, C11)"],
     },
     "C02": {
-        "bundles": ["core"], "kani": ["simtime"],
+        "bundles": ["core", "core#total"], "kani": ["simtime"],
         "fns": {"core": ["CQueue::add", "CQueue::fetch_next", "cqueue_impl::FutureEventSet::new_with", "cqueue_impl::FutureEventSet::add", "Runtime::dispatch_event", "Runtime::dispatch_all", "Runtime::add_event"]},
         "assumptions": [A_DLL, A_DUR, A_BOUNDS, A_NEW, A_HANDLER, A_CLOCK, A_BUILD, A_DERIVE],
-        "not_covered": ["'scheduling at or after now always succeeds' (absence of the panic) is the total-correctness reading; proved here is the partial one: add_event returns only for time >= now, and its precondition is satisfiable for time >= now (vacuity probe)",
+        "not_covered": ["'scheduling at or after now always succeeds' is proved in the TOTAL variant of unit core (assert!/assert_eq! as obligations): Runtime::add_event / FutureEventSet::add / CQueue::add cannot panic for time >= clock under the resource bounds; overflow panics are excluded by the same obligations; panics inside user handlers are outside",
                         "SimTime::now() as observed from inside user handlers is the real global (Kani unit simtime)"],
     },
     "C03": {
